@@ -102,13 +102,19 @@ class Magnet():
     def xt(self, value):
         value = str(value)
         if self._INFOHASH_REGEX.match(value):
-            self._infohash = value
+            self._set_infohash(value)
         else:
             match = self._XT_REGEX.match(value)
             if match:
-                self._infohash = match.group(1)
+                self._set_infohash(match.group(1))
             else:
                 raise error.MagnetError(value, 'Invalid exact topic ("xt")')
+
+    def _set_infohash(self, infohash):
+        if getattr(self, '_infohash', None) != infohash:
+            # Metadata from get_info() belongs to the previous info hash
+            self.__dict__.pop('_info', None)
+        self._infohash = infohash
 
     @property
     def infohash(self):
@@ -124,7 +130,7 @@ class Magnet():
         value = str(value)
         match = self._INFOHASH_REGEX.match(value)
         if match:
-            self._infohash = value
+            self._set_infohash(value)
         else:
             raise error.MagnetError(value, 'Invalid info hash')
 
